@@ -28,7 +28,13 @@ class Proxy:
         obj = object.__getattribute__(self, "_obj")
         if name in cs.views:
             return cs.views[name](obj)
-        return getattr(obj, name)
+        v = getattr(obj, name)
+        ft = cs.fields.get(name)
+        if isinstance(ft, T.Opt):
+            ft = ft.inner
+        if isinstance(ft, T.Ref) and ft.cls in api.CLASSES and v is not None and not isinstance(v, Proxy):
+            return Proxy(v, api.CLASSES[ft.cls])  # nested objects are seen through their own class vocabulary
+        return v
 
     def __eq__(self, o):
         a = object.__getattribute__(self, "_obj")
